@@ -169,7 +169,8 @@ def lean_replay(records):
                 mism.append({"rule": r["rule"], "sym": r["sym"], "action": r["action"], "params": {k: v for k, v in r["params"].items() if isinstance(v, (bool, str, int))}, "real": r["exc"] or want, "lean": got})
         elif line.startswith("err"):
             got = line[4:].split()[0].split(".")[-1]
-            if r["exc"] is None or ERR.get(r["exc"]) != got:
+            # the bfix driver names errors as Python does (`err IndexError`); older builds printed Lean's constructor
+            if r["exc"] is None or (ERR.get(r["exc"]) != got and r["exc"] != got):
                 mism.append({"rule": r["rule"], "sym": r["sym"], "action": r["action"], "real": r["exc"] or "ok", "lean": line})
         else:
             mism.append({"rule": r["rule"], "sym": r["sym"], "lean": line})
